@@ -19,7 +19,7 @@
      ccQ ref im = re o cc_fourier ref im ;  acorrQ x = re o acorr x
      shifted_of M N s1 s2 R cc     cc[k,l] == R[(k+s1) mod M, (l+s2) mod N]
      psym M N R              R[k,l] == R[-k mod M, -l mod N]
-     admits M N ms cc p q    max_shift = ms does not mask the peak (p,q) (and cc p q > 0 when a mask is set)
+     admits M N ms cc p q    max_shift = ms does not mask the peak (p,q) (masked entries are -inf: nothing else is needed)
      win_centred W c loc     the W x W upsampled window has its strict unique maximum at the centre
                              sample (c,c) and equal neighbours on either side of it along each axis
      fz n k                  the signed offset np.fft.fftfreq(n, 1/n)[k] of index k
@@ -31,7 +31,7 @@ From Coq Require Import ZArith List Lia Ring Arith QArith.
 From QV.lib Require Import Prelude FinSum DFT DFT2 DFT_Inst.
 From QV.model Require Import C13_Model.
 From QV.proof Require Import C13_Proofs C13_Proofs_Est C13_Proofs_Swap C13_Proofs_DFT C13_Proofs_Inst.
-From QV.proof Require Import C13_Proofs_CS C13_Proofs_CSInst C13_Proofs_TSwap.
+From QV.proof Require Import C13_Proofs_CS C13_Proofs_CSInst C13_Proofs_TSwap C13_Proofs_DC C13_Proofs_DCInst.
 Local Close Scope Q_scope.
 
 (* ============================================================================ correlation *)
@@ -325,7 +325,7 @@ Theorem C13_identical_zero_numpy :
     same_on_grid R N1 N2 im ref ->
     uniq_max N1 N2 (acorrQ R rO radd rmul conj N1 N2 re ref) 0 0 ->
     match ms with
-    | Some m => (0 < m * m)%Q /\ (0 < acorrQ R rO radd rmul conj N1 N2 re ref 0 0)%Q
+    | Some m => (0 < m * m)%Q
     | None => True
     end ->
     (2 <= up -> forall x y : Q, (x == 0)%Q -> (y == 0)%Q -> win_centred (np_win up) (du up) (ups x y)) ->
@@ -875,3 +875,141 @@ Example C13_nonvacuous_swap_torch_symmetric_value :
   | _, _ => false
   end = true.
 Proof. exact inst_torch_swap_symmetric_value. Qed.
+
+
+(* ============================================================================================
+   ROUND 4 (fixes/C13-zero-frequency-term.diff, /repo 48bfab4).  Both estimators set the (0,0) bin of
+   the cross spectrum to 0 before the inverse transform (the zero-frequency term N^2 mean_ref mean_im
+   swamped the peak in the working precision for images with a large mean), the max_shift mask holds
+   -inf and the NumPy parabola returns 0 on a zero denominator.  Vocabulary (proof/C13_Proofs_DC.v):
+     zero00 F                F with F[0,0] := 0
+     off M N c0 c c'         c'[k,l] == c[k,l] - c0 on the M x N grid
+     ups_off W c1 ups ups'   the window function ups' is ups minus c1 (at Qeq-equal positions)
+     res_eq r r'             both results are nan (None) or both are pairs with Qeq components
+     cc_fourier0 / ccQ0      the correlation array the repaired code forms (bin zeroed)
+   ============================================================================================ *)
+
+(* zeroing the (0,0) bin of ANY spectrum subtracts the constant Ninv1 Ninv2 F[0,0] from its inverse
+   transform, at every output index, on every grid *)
+Theorem C13_zero_frequency_bin_is_a_constant :
+  forall (R : Type) (rO rI : R) (radd rmul rsub : R -> R -> R) (ropp : R -> R),
+    ring_theory rO rI radd rmul rsub ropp eq ->
+    forall conj : R -> R, conj_ok radd rmul conj ->
+    forall (N1 : nat) (w1 : Z -> R) (Ninv1 : R) (N2 : nat) (w2 : Z -> R) (Ninv2 : R),
+    root_ok rO rI radd rmul conj N1 w1 Ninv1 -> root_ok rO rI radd rmul conj N2 w2 Ninv2 ->
+    forall (F : nat -> nat -> R) (j1 j2 : nat),
+    idft2 rO radd rmul N1 w1 Ninv1 N2 w2 Ninv2 (zero00 R rO F) j1 j2
+    = rsub (idft2 rO radd rmul N1 w1 Ninv1 N2 w2 Ninv2 F j1 j2) (rmul (rmul Ninv1 Ninv2) (F 0 0)).
+Proof. exact idft2_zero00. Qed.
+Print Assumptions C13_zero_frequency_bin_is_a_constant.
+
+(* ... and the constant F[0,0] from every sample of a matrix-multiply upsampled window whose
+   kernels have phase 0 in their zero-frequency column / row (both codes: np_freq n 0 = 0) *)
+Theorem C13_window_zero_frequency_bin_is_a_constant :
+  forall (R : Type) (rO rI : R) (radd rmul rsub : R -> R -> R) (ropp : R -> R),
+    ring_theory rO rI radd rmul rsub ropp eq ->
+    forall conj : R -> R,
+    forall (N1 : nat) (w1 : Z -> R) (Ninv1 : R) (N2 : nat) (w2 : Z -> R) (Ninv2 : R),
+    root_ok rO rI radd rmul conj N1 w1 Ninv1 -> root_ok rO rI radd rmul conj N2 w2 Ninv2 ->
+    forall E : Q -> R, (forall p q : Q, (p == q)%Q -> E p = E q) ->
+    (forall z : Z, E (inject_Z z / qN N1)%Q = w1 (- z)%Z) ->
+    forall (F : nat -> nat -> R) (ph1 ph2 : nat -> nat -> Q) (a b : nat),
+    (ph1 a 0%nat == 0)%Q -> (ph2 b 0%nat == 0)%Q ->
+    kernel_product R rO radd rmul N1 N2 E (zero00 R rO F) ph1 ph2 a b
+    = rsub (kernel_product R rO radd rmul N1 N2 E F ph1 ph2 a b) (F 0 0).
+Proof. exact kernel_product_zero00. Qed.
+Print Assumptions C13_window_zero_frequency_bin_is_a_constant.
+
+(* the estimators do not see a constant: for EVERY correlation array, window function, mask and
+   factor (no peak hypothesis), subtracting a constant from the array and another from the window
+   leaves the coarse argmax (with and without the -inf mask), both parabolas, the half-pixel
+   rounding, the window argmax and so the returned pair unchanged *)
+Theorem C13_estimators_ignore_a_constant :
+  forall (M N : nat) (ms : option Q) (up : nat) (c0 c1 : Q) (cc cc' : nat -> nat -> Q)
+         (ups ups' : Q -> Q -> nat -> nat -> Q),
+    0 < M -> 0 < N -> off M N c0 cc cc' ->
+    (ups_off (np_win up) c1 ups ups' -> res_eq (np_shift M N ms up cc ups) (np_shift M N ms up cc' ups')) /\
+    (ups_off (t_win up) c1 ups ups' -> res_eq (torch_shift M N up cc ups) (torch_shift M N up cc' ups')).
+Proof.
+  exact (fun M N ms up c0 c1 cc cc' ups ups' HM HN H =>
+           conj (@np_shift_off M N ms up c0 c1 cc cc' ups ups' HM HN H)
+                (@torch_shift_off M N up c0 c1 cc cc' ups ups' HM HN H)).
+Qed.
+Print Assumptions C13_estimators_ignore_a_constant.
+
+(* end to end: on the arrays the REPAIRED code forms (bin zeroed in the correlation and in the
+   window) both estimators return what the model returns on the full correlation and window — every
+   pair of images, mask and factor.  Every theorem above about ccQ / np_window / t_window is therefore
+   a theorem about the repaired code. *)
+Theorem C13_zero_frequency_term_irrelevant_numpy :
+  forall (R : Type) (rO rI : R) (radd rmul rsub : R -> R -> R) (ropp : R -> R),
+    ring_theory rO rI radd rmul rsub ropp eq ->
+    forall conj : R -> R, conj_ok radd rmul conj ->
+    forall (N1 : nat) (w1 : Z -> R) (Ninv1 : R) (N2 : nat) (w2 : Z -> R) (Ninv2 : R),
+    root_ok rO rI radd rmul conj N1 w1 Ninv1 -> root_ok rO rI radd rmul conj N2 w2 Ninv2 ->
+    forall re : R -> Q, (forall a b : R, (re (radd a b) == re a + re b)%Q) ->
+    forall E : Q -> R, (forall p q : Q, (p == q)%Q -> E p = E q) ->
+    (forall z : Z, E (inject_Z z / qN N1)%Q = w1 (- z)%Z) ->
+    forall (ref im : nat -> nat -> R) (ms : option Q) (up : nat),
+    res_eq (np_shift N1 N2 ms up (ccQ R rO radd rmul conj N1 w1 Ninv1 N2 w2 Ninv2 re ref im)
+              (np_window R rO radd rmul N1 N2 re E (cc_spec R rO radd rmul conj N1 w1 N2 w2 ref im) up))
+           (np_shift N1 N2 ms up (ccQ0 R rO radd rmul conj N1 w1 Ninv1 N2 w2 Ninv2 re ref im)
+              (np_window R rO radd rmul N1 N2 re E (zero00 R rO (cc_spec R rO radd rmul conj N1 w1 N2 w2 ref im)) up)).
+Proof. exact numpy_zero_frequency_irrelevant. Qed.
+Print Assumptions C13_zero_frequency_term_irrelevant_numpy.
+
+Theorem C13_zero_frequency_term_irrelevant_torch :
+  forall (R : Type) (rO rI : R) (radd rmul rsub : R -> R -> R) (ropp : R -> R),
+    ring_theory rO rI radd rmul rsub ropp eq ->
+    forall conj : R -> R, conj_ok radd rmul conj ->
+    forall (N1 : nat) (w1 : Z -> R) (Ninv1 : R) (N2 : nat) (w2 : Z -> R) (Ninv2 : R),
+    root_ok rO rI radd rmul conj N1 w1 Ninv1 -> root_ok rO rI radd rmul conj N2 w2 Ninv2 ->
+    forall re : R -> Q, (forall a b : R, (re (radd a b) == re a + re b)%Q) ->
+    forall E : Q -> R, (forall p q : Q, (p == q)%Q -> E p = E q) ->
+    (forall z : Z, E (inject_Z z / qN N1)%Q = w1 (- z)%Z) ->
+    (forall z : R, (re (conj z) == re z)%Q) ->
+    forall (ref im : nat -> nat -> R) (up : nat),
+    res_eq (torch_shift N1 N2 up (ccQ R rO radd rmul conj N1 w1 Ninv1 N2 w2 Ninv2 re ref im)
+              (t_window R rO radd rmul conj N1 N2 re E (cc_spec R rO radd rmul conj N1 w1 N2 w2 ref im) up))
+           (torch_shift N1 N2 up (ccQ0 R rO radd rmul conj N1 w1 Ninv1 N2 w2 Ninv2 re ref im)
+              (t_window R rO radd rmul conj N1 N2 re E (zero00 R rO (cc_spec R rO radd rmul conj N1 w1 N2 w2 ref im)) up)).
+Proof. exact torch_zero_frequency_irrelevant. Qed.
+Print Assumptions C13_zero_frequency_term_irrelevant_torch.
+
+(* the repaired NumPy estimator never returns nan: every parabola is guarded (exact arithmetic; any
+   array, mask, factor, window) *)
+Theorem C13_numpy_always_finite :
+  forall (M N : nat) (ms : option Q) (up : nat) (cc : nat -> nat -> Q) (ups : Q -> Q -> nat -> nat -> Q),
+    exists a b : Q, np_shift M N ms up cc ups = Some (a, b).
+Proof. exact np_shift_total. Qed.
+Print Assumptions C13_numpy_always_finite.
+
+(* non-vacuity / concrete values.  A flat correlation array (what a float32 image with mean 1000 x
+   its contrast gave before the repair): the shipped stage 1 is 0/0, the repaired estimator returns a pair *)
+Example C13_shipped_flat_peak_is_nan :
+  np_stage1_shipped 4 4 None (fun _ _ => 1%Q) = None /\
+  np_shift 4 4 None 1 (fun _ _ => 1%Q) (fun _ _ _ _ => 0%Q)
+  = Some (centre 4 (qmod (qN 0 + 0) 4), centre 4 (qmod (qN 0 + 0) 4)).
+Proof. exact flat_peak_shipped_nan_repaired_zero. Qed.
+
+(* the derived identical-image theorems carried to the arrays the repaired code forms (Gaussian
+   rationals, 4 x 4, window computed by the kernels from the zeroed spectrum) *)
+Example C13_nonvacuous_identical_zero_numpy_dc0 :
+  exists a b : Q,
+    np_shift 4 4 (Some 1%Q) 2 (ccQ04 ref4 ref4) (np_window04 (spec4 ref4 ref4) 2) = Some (a, b) /\
+    (a == 0)%Q /\ (b == 0)%Q.
+Proof. exact inst_identical_numpy_dc0. Qed.
+
+Example C13_nonvacuous_identical_zero_torch_dc0 :
+  exists a b : Q,
+    torch_shift 4 4 3 (ccQ04 ref4 ref4) (t_window04 (spec4 ref4 ref4) 3) = Some (a, b) /\
+    (a == 0)%Q /\ (b == 0)%Q.
+Proof. exact inst_identical_torch_dc0. Qed.
+
+(* the rolled pair on the zeroed-bin correlation evaluates to (-1, -2); the zeroed bin was not 0 *)
+Example C13_nonvacuous_integer_shift_dc0_value :
+  match np_shift 4 4 None 1 (ccQ04 ref4 im4) (fun _ _ _ _ => 0%Q) with
+  | Some (a, b) => Qeq_bool a (-1) && Qeq_bool b (-2)
+  | None => false
+  end = true /\ Qeq_bool (reC (spec4 ref4 im4 0 0)) 0 = false.
+Proof. exact inst_integer_numpy_dc0_value. Qed.
